@@ -196,6 +196,21 @@ def gen(params):
     fields = params.get("fields")
     extras = params.get("extras", [])
     sp = params.get("surrogate_p", 0.0)
+    rnd_self = random.Random(params.get("seed", 0) ^ 0x5E1F)     # its own stream: the programs of the main stream are unchanged
+    for call in _gen(params, rnd, ops, fields, extras, sp):
+        for st in call["prog"][1:]:
+            # the receiver's OWN text fed back (drivers.url._resolve_self): raw or decoded spelling of the component being set
+            if st["op"] in SELF_SOURCES and rnd_self.random() < 0.06:
+                st["from_self"] = rnd_self.choice(SELF_SOURCES[st["op"]])
+        yield call
+
+
+SELF_SOURCES = {"with_fragment": ["raw_fragment", "fragment"], "with_user": ["raw_user", "user"], "with_password": ["raw_password", "password"],
+                "with_path": ["raw_path", "path"], "with_name": ["raw_name", "name"], "truediv": ["raw_name", "name"],
+                "with_query": ["raw_query_string", "query_string"], "extend_query": ["raw_query_string", "query_string"]}
+
+
+def _gen(params, rnd, ops, fields, extras, sp):
     for _ in range(params["n"]):
         if "update_query" in ops and rnd.random() < 0.04:
             # multi-valued receivers: several keys occurring more than once, several of them updated at once (in any order,
